@@ -228,6 +228,31 @@ def run(chk: Check, ctx: Any) -> None:
     if rloop is None:
         raise AnalysisError("read_routines: loop over routines not found")
     rv = rloop.target.id  # type: ignore[union-attr]
+    # required keys are tested by presence: the compile CLI prints `"ops": []` for an alias routine, ids/indices may be 0
+    n_req = 0
+    for owner in (read_routines, repo.func(f"{DMOD}:read_ops") if _has_func(repo, f"{DMOD}:read_ops") else read_routines):
+        seen_fn = set()
+        if id(owner.node) in seen_fn:
+            continue
+        seen_fn.add(id(owner.node))
+        for n in walk_no_nested(owner.node):
+            if not (isinstance(n, ast.If) and any(isinstance(x, ast.Raise) for b in n.body for x in ast.walk(b))):
+                continue
+            t = norm(n.test)
+            import re as _re
+            keys_tested = set(_re.findall(r"\.get\('([^']+)'", t))
+            if keys_tested and keys_tested <= {"type"}:
+                n_req += 1
+                chk.hold("C15-R1", fkey(owner, n, "required-key"), owner, "a type tag is never empty: truthiness and presence agree", node=n)
+            elif ".get(" in t and " not in " not in t and (t.startswith("not ") or " or not " in t):
+                n_req += 1
+                chk.violation("C15-R1", fkey(owner, n, "required-key"), owner,
+                              f"`{t}` rejects a document whose field is present but empty or zero (the compile CLI prints `\"ops\": []` for a routine that is an "
+                              "alias of the previous one): the compile CLI's own output is refused", node=n)
+            elif " not in " in t:
+                n_req += 1
+                chk.hold("C15-R1", fkey(owner, n, "required-key"), owner, "presence test", node=n)
+    chk.floor("C15-R1", "required-key tests in the JSON reader", n_req, 3)
     for tag_e, ifn in _eq_chain(read_routines.node, f"{rv}['type']"):
         tag = fold.try_expr(dm, tag_e)
         member = None
@@ -503,3 +528,11 @@ def _mapping_builder(chk: Check, mf: Func) -> None:
                 chk.hold("C15-R2", "mapping:values", mf, "running counter, 1-based, across routines", node=st)
             return
     chk.unknown("C15-R2", "mapping:values", mf, f"index expression {txt} is not a recognised counting idiom", node=st)
+
+
+def _has_func(repo: Any, spec: str) -> bool:
+    try:
+        repo.func(spec)
+        return True
+    except Exception:
+        return False
